@@ -171,11 +171,19 @@ func (r *runner) http(st Step) {
 		}
 		abs = append(abs, a)
 	}
+	// the layout of a body (what a pretty-printer, a here-document or a file with a final newline would send) changes nothing
+	lay := len(h)
+	for _, m := range st.Mem {
+		lay += m.Var
+	}
+	lead := []string{"", "\n", "\r\n", " \t", "\n  ", ""}[lay%6]
+	trail := []string{"", "\n", "", " \r\n"}[lay%4]
+	sep := []string{",", ",\n", " , "}[lay%3]
 	body := ""
 	if len(parts) == 1 && st.Mem[0].Var%2 == 0 {
-		body = parts[0]
+		body = lead + parts[0] + trail
 	} else {
-		body = "[" + strings.Join(parts, ",") + "]"
+		body = lead + "[" + strings.TrimLeft(lead, "\r ") + strings.Join(parts, sep) + trail + "]" + trail
 	}
 	method, ctype := "POST", "application/json"
 	kind := st.Kind
@@ -194,7 +202,7 @@ func (r *runner) http(st Step) {
 	case "trailing": // a complete, well-formed message followed by more bytes: the body as a whole is not valid JSON
 		body += []string{"]", " garbage", body, ","}[len(st.Mem)%4]
 	case "emptyarr":
-		body = `[]`
+		body = lead + `[` + trail + `]` + trail
 	case "ok": // every spelling of "JSON in UTF-8"
 		ctype = []string{"application/json", "application/json; charset=utf-8", "application/json;charset=utf8", "Application/JSON", `application/json; charset="utf-8"`,
 			"application/json; foo=bar"}[(len(h)+len(body))%6]
